@@ -1,8 +1,9 @@
 // C14  Ray casting visits a connected, in-bounds chain of cells covering the segment.
 //
 // A case is one grid (float/double x 2D/3D) plus a sequence of casts on ONE reused caster,
-// mixing the cast overloads, the manual next() loop and stray calls that disturb the traversal
-// state.  Every cast is checked against
+// mixing the cast overloads, the manual next() loop, stray calls that disturb the traversal
+// state and changes of the grid the caster sees (setGridIndexMapping with another mapping, or a
+// new mapping assigned to the pointed-to object) followed by a cast from the same origin.  Every cast is checked against
 //   * exact, combinatorial oracles: first cell, number of cells = L1 + 1, face-adjacent steps,
 //     indexes inside the grid, accessors, bitwise equality with a fresh caster (history);
 //   * geometric oracles in long double, on the grid geometry published by the mapping (cell
@@ -188,13 +189,7 @@ struct Runner
   static GridDesc make_grid_desc(vh::Rng & r)
   {
     GridDesc g;
-    static const double RES[] = {0.1, 0.125, 0.01, 1.0, 0.5, 0.25, 0.05, 0.2, 0.0625, 0.015625};
-    double resd = r.coin(0.55) ? RES[r.range(0, 9)] : r.logu(0.01, 1.0);
-    g.res = static_cast<S>(resd);
-    {
-      int ex; double fr = std::frexp(static_cast<double>(g.res), &ex);
-      g.dyadic = (fr == 0.5);
-    }
+    g.res = pick_res(r);
     const double res = static_cast<double>(g.res);
     g.symmetric = r.coin(0.35);
     if (g.symmetric) {
@@ -237,12 +232,68 @@ struct Runner
         g.lower[i] = lof; g.upper[i] = hif;
       }
     }
+    finalize_desc(g);
+    return g;
+  }
+
+  static void finalize_desc(GridDesc & g)
+  {
+    int ex; double fr = std::frexp(static_cast<double>(g.res), &ex);
+    g.dyadic = (fr == 0.5);
     LD mx = 0;
     for (int i = 0; i < D; ++i) {
       mx = std::max(mx, std::max(fabsl(static_cast<LD>(g.lower[i])), fabsl(static_cast<LD>(g.upper[i]))));
     }
     g.coord_cells = mx / static_cast<LD>(g.res);
+  }
+
+  static S pick_res(vh::Rng & r)
+  {
+    static const double RES[] = {0.1, 0.125, 0.01, 1.0, 0.5, 0.25, 0.05, 0.2, 0.0625, 0.015625};
+    return static_cast<S>(r.coin(0.55) ? RES[r.range(0, 9)] : r.logu(0.01, 1.0));
+  }
+
+  // a second grid for the same caster: same bounds with another resolution (so that the same
+  // point falls in another cell), perturbed bounds, or an unrelated grid
+  static GridDesc derive_grid_desc(vh::Rng & r, const GridDesc & g0)
+  {
+    int mode = static_cast<int>(r.range(0, 3));
+    if (mode == 3) {return make_grid_desc(r);}
+    GridDesc g = g0;
+    double wmax = 0;
+    for (int i = 0; i < D; ++i) {wmax = std::max(wmax, static_cast<double>(g.upper[i]) - static_cast<double>(g.lower[i]));}
+    if (mode <= 1 || r.coin()) {
+      for (int t = 0; t < 6; ++t) {
+        S res = pick_res(r);
+        if (wmax / static_cast<double>(res) + 3 <= 1999 && res != g0.res) {g.res = res; break;}
+      }
+    }
+    if (mode == 2) {
+      g.symmetric = false;
+      for (int i = 0; i < D; ++i) {
+        double lo = static_cast<double>(g.lower[i]), hi = static_cast<double>(g.upper[i]);
+        double w = hi - lo;
+        lo += w * r.uni(0.0, 0.3); hi -= w * r.uni(0.0, 0.3);
+        if (r.coin(0.3)) {double sh = static_cast<double>(g.res) * static_cast<double>(r.range(-3, 3)); lo += sh; hi += sh;}
+        if (lo < -1000.0) {lo = -1000.0;}
+        if (hi > 1000.0) {hi = 1000.0;}
+        S lof = static_cast<S>(lo), hif = static_cast<S>(hi);
+        if (hif < lof) {hif = lof;}
+        g.lower[i] = lof; g.upper[i] = hif;
+      }
+    }
+    finalize_desc(g);
     return g;
+  }
+
+  static std::unique_ptr<G> build_grid(GridDesc & g)
+  {
+    std::unique_ptr<G> mp;
+    if (g.symmetric) {mp.reset(new G(g.max_range, g.res));} else {mp.reset(new G(Itv(g.lower, g.upper), g.res));}
+    const C nc = mp->getNumberOfCellsAlongAxes();
+    g.ncells_max = 0;
+    for (int i = 0; i < D; ++i) {g.ncells_max = std::max<size_t>(g.ncells_max, nc[i]);}
+    return mp;
   }
 
   // ---- the per-cast checks
@@ -251,6 +302,7 @@ struct Runner
     const GridDesc * g; const G * m;
     P o, e;
     int ray_kind, api, disturb, cast_no;
+    int grid_changed = 0;     // 1: first cast after the grid seen by the caster changed, 2: ... with the previous origin
     LD ncoord;      // max(cells per axis, coordinate magnitude in cells)
   };
 
@@ -307,7 +359,8 @@ struct Runner
           {"allowance_cells", static_cast<double>(allowance_cells(ci, steps_total))},
           {"deviation_cells", static_cast<double>(dev_cells)}, {"at_step", static_cast<double>(where)},
           {"origin_border_dist_cells", border_dist_cells(ci.o)}, {"end_border_dist_cells", border_dist_cells(ci.e)},
-          {"ray_kind", ci.ray_kind}, {"api", ci.api}, {"disturb", ci.disturb}, {"cast_no", ci.cast_no}};
+          {"ray_kind", ci.ray_kind}, {"api", ci.api}, {"disturb", ci.disturb}, {"cast_no", ci.cast_no},
+          {"grid_changed", ci.grid_changed}};
       };
     auto wit = [&]() {
         size_t lo = where > 3 ? where - 3 : 0;
@@ -315,7 +368,7 @@ struct Runner
                .raw("origin", vh::jvec(ci.o)).raw("end", vh::jvec(ci.e))
                .raw("origin_idx", vh::jvec(oi.template cast<double>())).raw("end_idx", vh::jvec(ei.template cast<double>()))
                .s("ray_kind", RK_NAME[ci.ray_kind]).s("api", API_NAME[ci.api]).s("disturb", DI_NAME[ci.disturb])
-               .f("cast_no", ci.cast_no).f("cells_returned", static_cast<uint64_t>(ray.size()))
+               .f("cast_no", ci.cast_no).f("grid_changed_before_cast", ci.grid_changed).f("cells_returned", static_cast<uint64_t>(ray.size()))
                .f("at_step", static_cast<uint64_t>(where)).raw("cells_around", ray_json(ray, lo, where + 3))
                .raw("last_cells", ray_json(ray, ray.size() > 3 ? ray.size() - 3 : 0, ray.size())).str();
       };
@@ -479,42 +532,80 @@ struct Runner
   static void run(vh::Ctx & c, vh::Rng & r, uint64_t ncasts_max)
   {
     const std::string tag = std::string(ScalarName<S>::v) + std::to_string(D);
-    GridDesc g = make_grid_desc(r);
-    std::unique_ptr<G> mp;
-    if (g.symmetric) {mp.reset(new G(g.max_range, g.res));} else {mp.reset(new G(Itv(g.lower, g.upper), g.res));}
-    G & m = *mp;
-    const C nc = m.getNumberOfCellsAlongAxes();
-    g.ncells_max = 0;
-    for (int i = 0; i < D; ++i) {g.ncells_max = std::max<size_t>(g.ncells_max, nc[i]);}
+    struct Slot {std::unique_ptr<G> m; GridDesc g;};
+    Slot slot[2];
+    int cur = 0;
+    slot[0].g = make_grid_desc(r);
+    slot[0].m = build_grid(slot[0].g);
     uint64_t h = vh::hash_doubles({static_cast<double>(ScalarName<S>::bits), static_cast<double>(D),
-          static_cast<double>(g.res), g.symmetric ? 1.0 : 0.0});
-    for (int i = 0; i < D; ++i) {h = vh::hash_add(h, g.lower[i]); h = vh::hash_add(h, g.upper[i]);}
-    if (g.ncells_max > 2000) {
+          static_cast<double>(slot[0].g.res), slot[0].g.symmetric ? 1.0 : 0.0});
+    for (int i = 0; i < D; ++i) {h = vh::hash_add(h, slot[0].g.lower[i]); h = vh::hash_add(h, slot[0].g.upper[i]);}
+    if (slot[0].g.ncells_max > 2000) {
       // outside the quantifier (up to 2000 cells per axis); cannot happen with the generator's margins
       c.skip("grid:over_2000_cells");
       c.distinct(h, false);
       return;
     }
     c.cat(tag);
-    c.cat(g.symmetric ? "ctor_symmetric_range" : "ctor_interval");
-    if (g.dyadic) {c.cat("res_dyadic");}
-    if (g.ncells_max >= 1000) {c.cat("grid_1000_to_2000_cells");}
-    if (static_cast<double>(g.coord_cells) > 1.5 * static_cast<double>(g.ncells_max)) {c.cat("grid_offset_from_frame_origin");}
-    for (int i = 0; i < D; ++i) {if (nc[i] <= 2) {c.cat("grid_axis_of_1_or_2_cells"); break;}}
+    auto grid_cats = [&](const G & m, const GridDesc & g) {
+        const C nc = m.getNumberOfCellsAlongAxes();
+        c.cat(g.symmetric ? "ctor_symmetric_range" : "ctor_interval");
+        if (g.dyadic) {c.cat("res_dyadic");}
+        if (g.ncells_max >= 1000) {c.cat("grid_1000_to_2000_cells");}
+        if (static_cast<double>(g.coord_cells) > 1.5 * static_cast<double>(g.ncells_max)) {c.cat("grid_offset_from_frame_origin");}
+        for (int i = 0; i < D; ++i) {if (nc[i] <= 2) {c.cat("grid_axis_of_1_or_2_cells"); break;}}
+      };
+    grid_cats(*slot[0].m, slot[0].g);
 
     RC rc_owner;
-    if (r.coin(0.3)) {rc_owner.setGridIndexMapping(&m);} else {rc_owner = RC(&m);}
+    if (r.coin(0.3)) {rc_owner.setGridIndexMapping(slot[0].m.get());} else {rc_owner = RC(slot[0].m.get());}
     RC & rc = rc_owner;
 
     const int ncasts = static_cast<int>(r.range(3, static_cast<int64_t>(ncasts_max)));
     P prev_o = P::Zero(), prev_e = P::Zero();
-    bool have_prev = false, nontrivial = !(ScalarName<S>::bits == 64 && D == 2 && g.symmetric);
+    bool have_prev = false, nontrivial = !(ScalarName<S>::bits == 64 && D == 2 && slot[0].g.symmetric);
     CastInfo ci;
-    ci.g = &g; ci.m = &m;
-    ci.ncoord = std::max(static_cast<LD>(g.ncells_max), g.coord_cells);
     bool sampled = false;
 
     for (int k = 0; k < ncasts; ++k) {
+      // -------- the grid seen by the caster may change between two casts of the history:
+      //          (a) setGridIndexMapping(&another mapping), (b) a new mapping assigned to the
+      //          object the caster points to.  The next cast specifies its origin (the statement
+      //          is about casts given the grid, origin and end point) and is checked on the new grid.
+      bool after_change = false, same_origin = false;
+      if (k > 0 && r.coin(0.12)) {
+        GridDesc ng = derive_grid_desc(r, slot[cur].g);
+        std::unique_ptr<G> nm = build_grid(ng);
+        if (ng.ncells_max > 2000) {
+          c.skip("grid_change:over_2000_cells");
+        } else {
+          if (r.coin()) {
+            slot[1 - cur].g = ng; slot[1 - cur].m = std::move(nm);
+            rc.setGridIndexMapping(slot[1 - cur].m.get());
+            cur = 1 - cur;
+            c.cat("grid_change_set_mapping");
+          } else {
+            *slot[cur].m = *nm;          // same object, new grid
+            slot[cur].g = ng;
+            c.cat("grid_change_reassign_object");
+          }
+          after_change = true; nontrivial = true;
+          grid_cats(*slot[cur].m, slot[cur].g);
+          h = vh::hash_add(h, static_cast<double>(ng.res));
+          for (int i = 0; i < D; ++i) {
+            h = vh::hash_add(h, ng.lower[i]); h = vh::hash_add(h, ng.upper[i]);
+            prev_o[i] = clampS(prev_o[i], ng.lower[i], ng.upper[i]);
+            prev_e[i] = clampS(prev_e[i], ng.lower[i], ng.upper[i]);
+          }
+          same_origin = have_prev && r.coin(0.65);
+        }
+      }
+      G & m = *slot[cur].m;
+      GridDesc & g = slot[cur].g;
+      const C nc = m.getNumberOfCellsAlongAxes();
+      ci.g = &g; ci.m = &m;
+      ci.ncoord = std::max(static_cast<LD>(g.ncells_max), g.coord_cells);
+
       // -------- the ray
       int rk = static_cast<int>(r.range(0, RK_COUNT - 1));
       if (r.coin(0.25)) {rk = RK_GENERIC;}
@@ -588,8 +679,18 @@ struct Runner
         default: break;
       }
 
+      if (same_origin) {
+        // bit-identical origin of the previous cast (clamped into the new extent when outside)
+        o = prev_o;
+        if (rk == RK_COINCIDENT) {e = o;} else if (rk != RK_GENERIC && rk != RK_BORDER_END) {rk = RK_GENERIC;}
+        c.cat("same_origin_after_grid_change");
+      }
+
       // -------- state disturbance before the cast
       int di = r.coin(0.35) ? DI_NONE : static_cast<int>(r.range(1, DI_COUNT - 1));
+      // right after a grid change the origin has to be specified again before anything else
+      // touches the grid: setEndPoint() alone would use the origin cell cached for the old grid
+      if (after_change && (di == DI_SETEND || di == DI_SETORIGIN)) {di = DI_NEXT;}
       switch (di) {
         case DI_NEXT: {
             C scratch = rc.getOriginPointIndexes();
@@ -613,6 +714,7 @@ struct Runner
       // -------- the cast
       int api = static_cast<int>(r.range(0, API_COUNT - 1));
       if (api == API_CAST_E_KEEP_ORIGIN && !(have_prev || di == DI_SETORIGIN)) {api = API_SETO_CAST_E;}
+      if (api == API_CAST_E_KEEP_ORIGIN && after_change) {api = r.coin() ? API_CAST_OE : API_SETO_CAST_E;}
       if (api == API_CAST_E_KEEP_ORIGIN) {
         o = rc.getOriginPoint();
         if (rk == RK_COINCIDENT) {e = o;}
@@ -645,7 +747,9 @@ struct Runner
       c.cat(RK_NAME[rk]); c.cat(API_NAME[api]); c.cat(DI_NAME[di]);
       c.count("casts");
       ci.o = o; ci.e = e; ci.ray_kind = rk; ci.api = api; ci.disturb = di; ci.cast_no = k;
+      ci.grid_changed = after_change ? (same_origin ? 2 : 1) : 0;
       if (rk != RK_GENERIC || di != DI_NONE) {nontrivial = true;}
+      if (after_change) {c.count("casts_right_after_grid_change");}
       for (int i = 0; i < D; ++i) {h = vh::hash_add(h, o[i]); h = vh::hash_add(h, e[i]);}
       h = vh::hash_addi(h, static_cast<uint64_t>(api * 16 + di));
       if (!sampled) {
